@@ -9,7 +9,7 @@ from .. import gen, monitor, refs
 from ..core import Workload
 from ..env import ptn
 
-BIG = 400        # Krylov dimension >= every local problem met here (Lanczos stops on exhaustion)
+BIG = 160        # Krylov dimension >= every local problem met here (largest: two-site tensor 9 x 9 x 9 / d^2 D^2 <= 144); Lanczos stops on exhaustion
 
 MODELS = {
     'xxz': (lambda L, p: ptn.heisenberg_xxz_mpo(L, *p), [1, -1]),
